@@ -171,6 +171,10 @@ pub fn cases(tier: Tier) -> Vec<FaultCase> {
 		for a in [Action::AcmeNoType, Action::AcmeUnknownType, Action::NonJson(400), Action::NonJson(404), Action::NonJson(500), Action::NonJson(503), Action::Empty(403), Action::Empty(500)] {
 			out.push(mk(&pos, a, 1));
 		}
+		// status codes that are neither 2xx nor 4xx/5xx: a redirection without Location (not followed), 304, and codes above 599
+		for a in [Action::NonJson(300), Action::NonJson(301), Action::Empty(304), Action::NonJson(600), Action::Empty(999)] {
+			out.push(mk(&pos, a, 1));
+		}
 	}
 	for pos in [Pos::Dir, Pos::Nonce] {
 		for a in [Action::Acme("serverInternal".into()), Action::Acme("unauthorized".into()), Action::NonJson(500), Action::Empty(503)] {
@@ -219,7 +223,7 @@ pub fn cases(tier: Tier) -> Vec<FaultCase> {
 }
 
 pub fn run(ctx: &Ctx, rep: &mut Report) {
-	rep.rule = "enumerated: every POST position of a 2-identifier issuance x each of the 24 ACME error types x run lengths of consecutive errors on that request (recoverable types: k in {1,2,9,10,12} everywhere and all k in 1..12 at newOrder, challenge and finalize in quick, all k everywhere in thorough; other types k in {1,3}); non-JSON bodies, problem without/with unknown type, empty 4xx/5xx at every POST position; objects that never reach the awaited status. Oracle on the mock CA's log of the attempt: recoverable => min(k+1,10) consecutive transmissions, each carrying the nonce of the immediately preceding response, same URL/kid/jwk/payload, validly signed, success iff k <= 9; any other error => exactly one transmission and a failed attempt; at most 20 polls per object and failure afterwards. Non-trivial = k >= 2, or a non-recoverable error after newOrder, or a poll-bound case.".into();
+	rep.rule = "enumerated: every POST position of a 2-identifier issuance x each of the 24 ACME error types x run lengths of consecutive errors on that request (recoverable types: k in {1,2,9,10,12} everywhere and all k in 1..12 at newOrder, challenge and finalize in quick, all k everywhere in thorough; other types k in {1,3}); non-JSON bodies, problem without/with unknown type, empty 4xx/5xx at every POST position; objects that never reach the awaited status. Also answers with status 300/301 (no Location), 304, 600 and 999, which are neither success nor 4xx/5xx. Oracle on the mock CA's log of the attempt: recoverable => min(k+1,10) consecutive transmissions, each carrying the nonce of the immediately preceding response, same URL/kid/jwk/payload, validly signed, success iff k <= 9; any other error => exactly one transmission and a failed attempt; at most 20 polls per object and failure afterwards. Non-trivial = k >= 2, or a non-recoverable error after newOrder, or a poll-bound case.".into();
 	rep.assume("retry obligation is judged on POST requests; for directory/newNonce (GET) only 'an error is never taken for success'; accountDoesNotExist at newOrder may be followed by one re-registration and one re-send");
 	run_replays::<FaultCase>(ctx, rep, "enum", &exec);
 	if ctx.replay.is_some() {
